@@ -194,7 +194,7 @@ def queue_objects(an, f, st, fr):
 def run_linbounds(prog, ctx=None):
     res = Result("LINBOUNDS")
     files = list(ctx.get("files", [])) if ctx else []
-    roots = [f for f in prog.funcs_in(files) if not f.nocfg]
+    roots = entry_points(prog, files)
     if len(roots) < 15:
         raise Broken("LINBOUNDS: only %d entry points in the queue files" % len(roots))
     agg = {}          # key -> [ok, func, line, detail, decided]
@@ -494,6 +494,19 @@ GAPFILL_EXEMPT = {"mpt_buffer_insert": "returns the inserted area", "mpt_array_i
 GLOBAL_INV = {"_mpt_buffer_alloc_psize": (0, 4 * 1024 * 1024 + 8, 8)}      # 0 (unset) or a page size of at least 8
 
 
+def entry_points(prog, files):
+    """functions of the files that are reached from outside: exported ones, and file-local ones that no function of these files
+    calls directly (vtable members, callbacks).  A file-local helper that is only called is analysed in its callers' context."""
+    funcs = [f for f in prog.funcs_in(files) if not f.nocfg]
+    called = set()
+    for f in funcs:
+        for b, i, e in f.elements():
+            if e.get("k") == "call" and e.get("fn"):
+                for g in prog.resolve_call(f, e):
+                    called.add(g.key())
+    return [f for f in funcs if not f.static or f.key() not in called]
+
+
 class FRef:
     """what an obligation needs of a function (picklable)"""
     def __init__(self, f):
@@ -708,8 +721,8 @@ def run_linbuf(prog, ctx=None):
     res = Result("LINBUF")
     files = [x for x in (ctx.get("files", []) if ctx else []) if x.endswith(".c") and x.startswith((ctx or {}).get("only_dir", ""))]
     cxxfiles = [x for x in (ctx.get("files", []) if ctx else []) if x in (ctx or {}).get("cxx_files", [])]
-    roots = sorted([f for f in prog.funcs_in(files) if not f.nocfg], key=lambda f: (f.file, f.line))
-    roots += sorted([f for f in prog.funcs_in(cxxfiles) if not f.nocfg and f.qn not in LINBUF_CXX_EXCLUDED], key=lambda f: (f.file, f.line, f.qn))
+    roots = sorted(entry_points(prog, files), key=lambda f: (f.file, f.line))
+    roots += sorted([f for f in entry_points(prog, cxxfiles) if f.qn not in LINBUF_CXX_EXCLUDED], key=lambda f: (f.file, f.line, f.qn))
     files = files + cxxfiles
     if len(roots) < 12:
         raise Broken("LINBUF: only %d entry points in the buffer files" % len(roots))
@@ -826,7 +839,7 @@ def _ident_root(i):
 def run_linident(prog, ctx=None):
     res = Result("LINIDENT")
     files = [x for x in (ctx.get("files", []) if ctx else []) if x.endswith("identifier.c")]
-    roots = sorted([f for f in prog.funcs_in(files) if not f.nocfg], key=lambda f: (f.file, f.line))
+    roots = sorted(entry_points(prog, files), key=lambda f: (f.file, f.line))
     if len(roots) < 6:
         raise Broken("LINIDENT: only %d functions in identifier.c" % len(roots))
     _G.update(prog=prog, roots=roots, fileset=set(files))
@@ -947,7 +960,7 @@ def run_linpath(prog, ctx=None):
     res = Result("LINPATH")
     # all path primitives of the program are analysed (they call each other); findings are attributed by file as usual
     files = sorted(x for x in prog.by_file if x.startswith("mptcore/config/path_") and x.endswith(".c"))
-    funcs = sorted([f for f in prog.funcs_in(files) if not f.nocfg], key=lambda f: (f.file, f.line))
+    funcs = sorted(entry_points(prog, files), key=lambda f: (f.file, f.line))
     roots = []
     for f in funcs:
         if f.name in LINPATH_EXCLUDED:
@@ -1026,10 +1039,77 @@ def _codec_root(i):
 def run_lincodec(prog, ctx=None):
     res = Result("LINCODEC")
     files = sorted(x for x in (ctx.get("files", []) if ctx else []) if x.startswith("mptcore/convert/encode_") and x.endswith(".c"))
-    roots = sorted([f for f in prog.funcs_in(files) if not f.nocfg], key=lambda f: (f.file, f.line, f.name))
+    roots = sorted(entry_points(prog, files), key=lambda f: (f.file, f.line, f.name))
     if len(roots) < 4:
         raise Broken("LINCODEC: only %d encoder functions found" % len(roots))
     _G.update(prog=prog, roots=roots, fileset=set(files))
     parts = _parallel(_codec_root, len(roots))
+    _collect(res, parts)
+    return res
+
+
+# =====================================================================================================================
+# LINNODE (C14): sibling links written by a function agree when it returns
+# =====================================================================================================================
+NODE_RECORDS = ("mpt_node", "mpt::node")
+NODE_LINKS = {"next": "prev", "prev": "next"}
+
+
+def node_inv(an, st, obj, prefix, assume):
+    # no numeric invariant: the record is listed so that node pointers become symbolic objects
+    return None if assume else []
+
+
+def _node_root(i):
+    prog, roots, fileset = _G["prog"], _G["roots"], _G["fileset"]
+    f = roots[i]
+    agg, undecided, stats = {}, set(), {}
+    an = LinAnalysis(prog, invariants={r: node_inv for r in NODE_RECORDS}, contracts={})
+    an.no_alias = set(NODE_RECORDS)        # well-formed input: nodes reached over different access paths are different nodes
+    an.track_fields = set(NODE_LINKS) | {"parent", "children"}
+    an.max_returns = 16
+    an.state_budget = 4000
+    an.policy = (lambda fr, g: "inline" if g.file in fileset else "modular")
+    entry, fr, outs = an.analyse_root(f)
+    for k in ("states", "paths", "inlined"):
+        stats[k] = an.stats.get(k, 0)
+    _merge_obls(an, f, agg, undecided, stats)
+    if an.over_budget:
+        undecided.add("LIN:%s:budget" % f.name)
+        return {"agg": agg, "undecided": undecided, "stats": stats, "assumed": an.assumed, "cut": f.name}
+    ok, det, n = True, "", 0
+    for st, v in outs:
+        for k in [k for k in st.env if k[0] == "stored" and k[2].rsplit(".", 1)[-1] in NODE_LINKS]:
+            obj, path = k[1], k[2]
+            fld = path.rsplit(".", 1)[-1]
+            pre = path[:-len(fld)]
+            val = st.env.get(("f", obj, path))
+            if not isinstance(val, ObjPtr) or val.maybe_null or val.boff:
+                continue        # null, or not known to be a node: nothing to pair
+            n += 1
+            back = st.env.get(("f", val.obj, val.prefix + NODE_LINKS[fld]))
+            if back is None:
+                undecided.add("LIN:%s:LINKPAIR" % f.name)
+                continue
+            good = isinstance(back, ObjPtr) and (back.obj, back.prefix) == (obj, pre)
+            if not good:
+                if st.joined:
+                    undecided.add("LIN:%s:LINKPAIR" % f.name)
+                else:
+                    ok = False
+                    det = "at return %s%s->%s is %s, but that node's ->%s is %s (path %s)" % (obj, ("." + pre) if pre else "", fld, val, NODE_LINKS[fld], back, " / ".join(st.trail[-8:]))
+    if n:
+        agg["LIN:%s:LINKPAIR" % f.name] = [ok, FRef(f), f.line, det, True]
+    return {"agg": agg, "undecided": undecided, "stats": stats, "assumed": an.assumed, "cut": None}
+
+
+def run_linnode(prog, ctx=None):
+    res = Result("LINNODE")
+    files = sorted(x for x in (ctx.get("files", []) if ctx else []) if x.startswith("mptcore/node/") and x.endswith(".c"))
+    roots = sorted(entry_points(prog, files), key=lambda f: (f.file, f.line, f.name))
+    if len(roots) < 8:
+        raise Broken("LINNODE: only %d node functions found" % len(roots))
+    _G.update(prog=prog, roots=roots, fileset=set(files))
+    parts = _parallel(_node_root, len(roots))
     _collect(res, parts)
     return res
